@@ -6,21 +6,27 @@ import (
 	"syscall"
 )
 
+// Development aids (off unless the environment variables are set; they never
+// influence execution): CS_DBG=1 prints per-run real-time cost, CS_TRACE=1
+// dumps every trace line to stderr so that two processes can be diffed.
+
+// realNow reads the real clock (time.Now is the bubble's fake clock).
 func realNow() float64 {
 	var tv syscall.Timeval
 	_ = syscall.Gettimeofday(&tv)
 	return float64(tv.Sec) + float64(tv.Usec)/1e6
 }
 
-var dbgOn = os.Getenv("CS_DBG") != ""
+var (
+	dbgOn     = os.Getenv("CS_DBG") != ""
+	traceDump = os.Getenv("CS_TRACE") != ""
+)
 
 func dbg(format string, a ...any) {
 	if dbgOn {
 		fmt.Fprintf(os.Stderr, format+"\n", a...)
 	}
 }
-
-var traceDump = os.Getenv("CS_TRACE") != ""
 
 // tr adds one line to the run's trace (the determinism witness).
 func (w *world) tr(format string, a ...any) {
